@@ -127,6 +127,7 @@ peg::parser! {
         rule extglob_enabled() -> () =
             &[_] {? if enable_extended_globbing { Ok(()) } else { Err("extglob disabled") } }
 
+        #[cache]
         pub(crate) rule extended_glob_pattern() -> String =
             kind:extended_glob_prefix() "(" branches:extended_glob_body() ")" {
                 let mut s = String::new();
